@@ -1143,7 +1143,13 @@ impl<'a, 'b> GeneratorState<'a> {
             }
         }
         self.label(&switchend_label)?;
-        self.loops.pop();
+        // A `continue` inside the switch targets the enclosing loop: tell it that its
+        // continue label is in use
+        if let Some((_, _, true)) = self.loops.pop() {
+            if let Some(l) = self.loops.last_mut() {
+                l.2 = true;
+            }
+        }
         Ok(())
     }
 }
